@@ -294,9 +294,29 @@ extern "C" int __wrap_pthread_mutex_trylock(pthread_mutex_t *m) {
     } else {
         g_blocked++;
         me.wait_on = m;
-        if (me.stall_budget <= 0 && !g_cfg.lockstep) me.state = TS_WAIT;
+        if (me.stall_budget <= 0 && !g_cfg.lockstep) {
+            me.state = TS_WAIT;
+            // hand the baton over right here: the simulation must not depend on which primitive the library
+            // uses to pause between attempts (usleep today)
+            sim_yield(Y_SLEEP);
+        }
     }
     return r;
+}
+// A blocking lock would park a thread that holds the baton; express it as try-and-yield so that a library that
+// switches from the trylock spin to pthread_mutex_lock still runs under the simulator.
+extern "C" int __real_pthread_mutex_lock(pthread_mutex_t *);
+extern "C" int __wrap_pthread_mutex_lock(pthread_mutex_t *m) {
+    if (!g_active || t_self < 0) {
+        int r = __real_pthread_mutex_lock(m);
+        if (r == 0 && t_self < 0) g_main_depth++;
+        return r;
+    }
+    for (;;) {
+        int r = __wrap_pthread_mutex_trylock(m);
+        if (r != EBUSY) return r;
+        if (g_cfg.lockstep) sim_yield(Y_SLEEP);
+    }
 }
 extern "C" int __wrap_pthread_mutex_unlock(pthread_mutex_t *m) {
     if (!g_active || t_self < 0) {
